@@ -246,6 +246,62 @@ let () =
                            (String.concat "," (List.map (fun (n, _) -> ocaml_string n) !st.ms_lists.l_biases))) :: !outs)
               (List.filter (fun x -> x <> "") (String.split_on_char '|' (get "cfgs")));
             print_endline (String.concat " ; " (List.rev !outs))
+          | "session6" ->
+            (* module-level state: traj0= restart0= cfgs=<cfg>|RESET|<cfg>...;  <cfg> = fields joined by ';':
+               T:<value text> R:<value text> F:<file>,<file> C:<cv>,<cv> B:<bias>,<bias>
+               <file> = missing | tokens joined by '.': h~NAME (header), b (malformed header), a~Z (number), x (text)
+               <cv> = name~fails~<group>~<group>..., <group> = <name or _>^<n | iNAME | oNAME>
+               <bias> = type~<name or _>~fails~cv+cv   (grouped by type in the order of parse_biases).
+               Prints the module state after every configuration. *)
+            let split c s = List.filter (fun x -> x <> "" && x <> "-") (String.split_on_char c s) in
+            let type_order = ["abf"; "abmd"; "alb"; "harmonic"; "harmonicwalls"; "histogram"; "histogramrestraint"; "linear"; "metadynamics"; "reweightamd"; "opes_metad"] in
+            let zget k d = match z_of_string (get k) with Some z -> z | None -> z_of_int d in
+            let st = ref { q_cvs = []; q_biases = []; q_reg = []; q_named = []; q_counters = []; q_traj = zget "traj0" 1; q_restart = zget "restart0" 0;
+                           q_active = []; q_err = false; q_crash = false } in
+            let variant = (match get "variant" with "keep" -> IvKeep | "null" -> IvNull | _ -> IvRollback) in
+            let restore = get "restore" <> "0" in
+            let outs = ref [] in
+            let field cfg tag = (match List.filter (fun f -> String.length f >= 2 && String.sub f 0 2 = tag ^ ":") (String.split_on_char ';' cfg) with
+                | f :: _ -> String.sub f 2 (String.length f - 2) | [] -> "") in
+            let opt_name n = if n = "_" || n = "" then None else Some (coq_string n) in
+            List.iter (fun cfg ->
+                if cfg = "RESET" then st := reset6 !st
+                else begin
+                  let tokfield tag = (match field cfg tag with "" -> None | v -> tok_of_text v) in
+                  let files = List.map (fun f -> if f = "missing" then None else if f = "empty" then Some [] else
+                                           Some (List.map (fun t -> match String.split_on_char '~' t with
+                                               | ["h"; n] -> IHdr (coq_string n)
+                                               | ["a"; z] -> (match z_of_string z with Some v -> IAtom v | None -> IText)
+                                               | ["b"] -> IBadHdr
+                                               | _ -> IText) (split '.' f))) (split ',' (field cfg "F")) in
+                  let cvs = List.map (fun c -> match String.split_on_char '~' c with
+                      | n :: f :: gs -> { cvd_name = coq_string n; cvd_fails = (f = "1");
+                                          cvd_groups = List.map (fun g -> match String.split_on_char '^' g with
+                                              | [gn; src] -> { gd_name = opt_name gn;
+                                                               gd_src = (if src = "n" then GNumbers
+                                                                         else if src.[0] = 'i' then GIndex (coq_string (String.sub src 1 (String.length src - 1)))
+                                                                         else GOfGroup (coq_string (String.sub src 1 (String.length src - 1)))) }
+                                              | _ -> { gd_name = None; gd_src = GNumbers }) gs }
+                      | _ -> { cvd_name = coq_string c; cvd_fails = false; cvd_groups = [] }) (split ',' (field cfg "C")) in
+                  let biases = List.map (fun b -> match String.split_on_char '~' b with
+                      | [t; n; f; cs] -> { bd_type = coq_string t; bd_name = opt_name n; bd_cvs = List.map coq_string (split '+' cs); bd_fails = (f = "1") }
+                      | _ -> { bd_type = coq_string b; bd_name = None; bd_cvs = []; bd_fails = true }) (split ',' (field cfg "B")) in
+                  let by_type = List.filter (fun l -> l <> []) (List.map (fun t -> List.filter (fun b -> ocaml_string b.bd_type = t) biases) type_order) in
+                  st := parse_config6 variant restore { c6_traj = tokfield "T"; c6_restart = tokfield "R"; c6_files = files; c6_cvs = cvs; c6_biases = by_type } !st
+                end;
+                let s = !st in
+                let reg = String.concat "/" (List.map (fun (n, v) -> ocaml_string n ^ ":" ^ (match v with
+                    | None -> "NULL" | Some [] -> "empty" | Some l -> String.concat "," (List.map string_of_z l))) s.q_reg) in
+                outs := (Printf.sprintf "%s cv=%s bias=%s reg=%s named=%s act=%s traj=%s restart=%s crash=%d"
+                           (if cfg = "RESET" then "reset" else if s.q_err then "reject" else "accept")
+                           (String.concat "," (List.map ocaml_string s.q_cvs))
+                           (String.concat "," (List.map (fun ((n, _), _) -> ocaml_string n) s.q_biases))
+                           reg
+                           (String.concat "," (List.map (fun (g, _) -> ocaml_string g) s.q_named))
+                           (String.concat "," (List.map ocaml_string s.q_active))
+                           (string_of_z s.q_traj) (string_of_z s.q_restart) (if s.q_crash then 1 else 0)) :: !outs)
+              (List.filter (fun x -> x <> "") (String.split_on_char '|' (get "cfgs")));
+            print_endline (String.concat " ; " (List.rev !outs))
           | "rollback" ->
             (* have_cv=a,b have_bias=n:t,n:t cvs=name:0|1,... biases=type:name:0|1,...;type:... (fails flag) *)
             let split c s = List.filter (fun x -> x <> "") (String.split_on_char c s) in
